@@ -195,6 +195,14 @@ PeerConnection<type>::read_message() {
 
     down_chunk_release();
 
+    // A connection that our own choke queue choked stays queued but is marked not interested
+    // (receive_download_choke). The peer's choke now takes it out of the queue: restore the
+    // interest, else the peer's next unchoke is ignored and nothing ever queues it again.
+    if (!m_down_interested && m_down_choke.queued()) {
+      m_send_interested = true;
+      m_down_interested = true;
+    }
+
     request_list()->choked();
     m_download->choke_group()->down_queue()->set_not_queued(this, &m_down_choke);
     m_down->throttle()->erase(m_peer_chunks.download_throttle());
